@@ -1056,6 +1056,59 @@ def dir_becomes_file_task(variant):
         s.cleanup()
 
 
+def empty_file_task(s0):
+    """Zero-length files are files: one path a/e.txt whose committed state s0, state s1 at
+    `checkpoint update -p` and state s2 at the analysis each range over {absent, empty, one line}
+    (all 9 (s1, s2) pairs per s0). The path is a change iff s2 differs from the commit and from what
+    was recorded; an empty file and a missing file are different states."""
+    STATES = [None, "", "one line\n"]
+    names = {None: "absent", "": "empty", "one line\n": "one-line"}
+    s = sc.Scratch("emp")
+    try:
+        real = Real(s)
+        r = real.r
+        p = "a/e.txt"
+        if s0 is not None:
+            r.write(p, s0)
+            r.commit("e.txt %s" % names[s0])
+        if r.mr("checkpoint", "update").code != 0:
+            raise common.EngineError("checkpoint update failed")
+        v = []
+        evals = 0
+
+        def set_wt(c):
+            fp = r.path(p)
+            if c is None:
+                if os.path.isfile(fp):
+                    os.unlink(fp)
+            else:
+                r.write(p, c)
+        for s1 in STATES:
+            for s2 in STATES:
+                set_wt(s1)
+                if r.mr("checkpoint", "update", "-p").code != 0:
+                    raise common.EngineError("update -p failed")
+                set_wt(s2)
+                doc = r.mr("analyze", "--changes").json()
+                got = None if doc is None else [c["path"] for c in doc.get("changes") or []]
+                want = [p] if (s2 != s0 and s2 != s1) else []
+                evals += 1
+                label = "a/e.txt committed %s, %s at update -p, %s at the analysis" % (names[s0], names[s1], names[s2])
+                if got != want:
+                    v.append(("change-set-wrong", "%s: reported %s, expected %s" % (label, got, want)))
+                t = None if doc is None else doc.get("targets")
+                if t != (["a"] if want else []):
+                    v.append(("edit-not-reflagged" if want else "targets-after-pending-update", "%s: targets %s, expected %s" % (label, t, ["a"] if want else [])))
+        return {"violations": [{"sig": sig, "detail": d, "rank": 66, "case": {"emp_case": names[s0]}} for sig, d in v],
+                "evals": evals, "obs": None, "nontrivial": evals}
+    except common.EngineError as e:
+        return {"engine_error": "%s (empty file, %s)" % (e, s0)}
+    except Exception:
+        return {"engine_error": "empty file %r: %s" % (s0, traceback.format_exc()[-1200:])}
+    finally:
+        s.cleanup()
+
+
 def outdir_sibling_task(variant):
     """A target whose name merely BEGINS with the name of the output directory (`monorail-outpost` next to
     the default `monorail-out`; `outer` next to a configured `out`) is a target like any other: its dirty
@@ -1370,8 +1423,8 @@ def state_task(task):
 
 
 RULES = {
-    "C02": "plus changed paths covered by a target's ignores entries (modified, deleted, untracked, named exactly), in every output mode, uncommitted and as a commit range; plus wholly untracked directories (5 places: inside a target, nested three deep, name with a space / non-ASCII, outside every target) whose files must be listed one by one; plus 13 sequences with surroundings outside the model (records of earlier successful / failed runs on disk, a log tail listener attached, runs without -t and analyses after a pending path changed again); plus an odd-file-name family (18 names: leading/trailing spaces, tab, newline, quote, backslash, non-ASCII, 200 characters, leading dash, glob characters), each untracked and tracked-modified; plus a many-pending-paths family (1..40 and 1000 paths in quick, up to 2500 in thorough, of mixed sizes, untracked / staged / modified / deleted at once); plus the size family of C07 judged on the reported change list (a pending file edited beyond a buffer/read boundary must be listed, restored content must be filtered); explicit-state BFS over operation sequences {write(p,c), delete(p), mv, git mv, add -A, commit, checkpoint update [-p] [--id k], checkpoint delete, out delete --all} on paths {a/f.txt, 'b/n e-acute.txt', b/m.txt}; state = (commits, index, worktree, checkpoint) with commit ids canonicalised to indices; each new state is materialised in a real repository (real git, real monorail) and, when a checkpoint exists, `analyze --changes` for the default range, every ordered pair of commits as --begin/--end, and every commit as --begin alone (.. working tree) and as --end alone (checkpoint ..) must equal the statement's set, also after every file was rewritten with the bytes it already had and a new mtime (content differs from base, plus untracked, minus pending-checksum matches), verbatim and sorted",
-    "C07": "plus `uses` entries that are files in the repository root (edited, deleted, created after update -p); plus targets whose names only begin with the name of the output directory; plus analysis under a file descriptor limit of 64 / 256 with 1000 pending paths; plus wholly untracked directories (5 places) pending at update -p: a new file, a changed file and a new file in a subdirectory must each re-flag; plus 13 sequences with surroundings outside the model (records of earlier successful / failed runs on disk, a log tail listener attached, runs without -t and analyses after a pending path changed again); plus an odd-file-name family (18 names: leading/trailing spaces, tab, newline, quote, backslash, non-ASCII, 200 characters, leading dash, glob characters), each untracked and tracked-modified; plus a many-pending-paths family (1..40 and 1000 paths in quick, up to 2500 in thorough, of mixed sizes, untracked / staged / modified / deleted at once); plus the update-pair family of C19 judged on `analyze` after the second update -p; plus a size family: a pending file (untracked / modified / staged) of each size around the checksum buffer and read boundaries (65535..65537, 200000, 2 MiB+1; thorough more) must be clean after update -p and re-flagged by a one-byte edit at each boundary offset, an append and a truncation; same BFS; in every state reached by `checkpoint update -p`: analyze reports no targets and run starts nothing; then from that state every single later edit (fresh content for each path, new files, deletion of committed files; thorough: every pair) must re-flag exactly the targets of the edited paths, and a second update -p must clear them",
+    "C02": "plus an empty-file family (one path whose committed state, state at `update -p` and state at the analysis each range over absent / zero-length / one line: 27 triples; a zero-length file and a missing file are different states); plus changed paths covered by a target's ignores entries (modified, deleted, untracked, named exactly), in every output mode, uncommitted and as a commit range; plus wholly untracked directories (5 places: inside a target, nested three deep, name with a space / non-ASCII, outside every target) whose files must be listed one by one; plus 13 sequences with surroundings outside the model (records of earlier successful / failed runs on disk, a log tail listener attached, runs without -t and analyses after a pending path changed again); plus an odd-file-name family (18 names: leading/trailing spaces, tab, newline, quote, backslash, non-ASCII, 200 characters, leading dash, glob characters), each untracked and tracked-modified; plus a many-pending-paths family (1..40 and 1000 paths in quick, up to 2500 in thorough, of mixed sizes, untracked / staged / modified / deleted at once); plus the size family of C07 judged on the reported change list (a pending file edited beyond a buffer/read boundary must be listed, restored content must be filtered); explicit-state BFS over operation sequences {write(p,c), delete(p), mv, git mv, add -A, commit, checkpoint update [-p] [--id k], checkpoint delete, out delete --all} on paths {a/f.txt, 'b/n e-acute.txt', b/m.txt}; state = (commits, index, worktree, checkpoint) with commit ids canonicalised to indices; each new state is materialised in a real repository (real git, real monorail) and, when a checkpoint exists, `analyze --changes` for the default range, every ordered pair of commits as --begin/--end, and every commit as --begin alone (.. working tree) and as --end alone (checkpoint ..) must equal the statement's set, also after every file was rewritten with the bytes it already had and a new mtime (content differs from base, plus untracked, minus pending-checksum matches), verbatim and sorted",
+    "C07": "plus an empty-file family (one path whose committed state, state at `update -p` and state at the analysis each range over absent / zero-length / one line: 27 triples; a zero-length file and a missing file are different states); plus `uses` entries that are files in the repository root (edited, deleted, created after update -p); plus targets whose names only begin with the name of the output directory; plus analysis under a file descriptor limit of 64 / 256 with 1000 pending paths; plus wholly untracked directories (5 places) pending at update -p: a new file, a changed file and a new file in a subdirectory must each re-flag; plus 13 sequences with surroundings outside the model (records of earlier successful / failed runs on disk, a log tail listener attached, runs without -t and analyses after a pending path changed again); plus an odd-file-name family (18 names: leading/trailing spaces, tab, newline, quote, backslash, non-ASCII, 200 characters, leading dash, glob characters), each untracked and tracked-modified; plus a many-pending-paths family (1..40 and 1000 paths in quick, up to 2500 in thorough, of mixed sizes, untracked / staged / modified / deleted at once); plus the update-pair family of C19 judged on `analyze` after the second update -p; plus a size family: a pending file (untracked / modified / staged) of each size around the checksum buffer and read boundaries (65535..65537, 200000, 2 MiB+1; thorough more) must be clean after update -p and re-flagged by a one-byte edit at each boundary offset, an append and a truncation; same BFS; in every state reached by `checkpoint update -p`: analyze reports no targets and run starts nothing; then from that state every single later edit (fresh content for each path, new files, deletion of committed files; thorough: every pair) must re-flag exactly the targets of the edited paths, and a second update -p must clear them",
     "C19": "plus `checkpoint show` while a run of the same repository is in progress (from another shell, from an executable of the run); plus HEAD resolving to no commit (repository without commits; orphan branch after a real checkpoint): update must fail and leave the store as it was; plus 13 sequences with surroundings outside the model (records of earlier successful / failed runs on disk, a log tail listener attached, runs without -t and analyses after a pending path changed again); plus a many-pending-paths family (1..40 and 1000 paths in quick, up to 2500 in thorough, of mixed sizes, untracked / staged / modified / deleted at once); plus an update-pair family: worktree set to pending configuration S1 (each of a/f.txt, b/m.txt, a/g.txt absent or with one of two contents), `update -p`, worktree set to S2, second update (-p or plain) for every pair (S1,S2) (quick: at most two pending paths each): show must equal what the second update printed; same BFS; from every state (quick: every state whose last operation touched the store) a suffix probe update, update -p, delete: show follows each update and afterwards no checkpoint exists; in every state `checkpoint show` must equal what the last successful update printed (or fail when deleted / never set); updates must record HEAD or the given --id; without a checkpoint analyze reports checkpointed=false with every target and run covers every target",
     "C05": "plus 13 sequences with surroundings outside the model (records of earlier successful / failed runs on disk, a log tail listener attached, runs without -t and analyses after a pending path changed again); same BFS (part B of C05): in every state `analyze --target-groups` then `run -c build` in trace mode must agree on groups and started targets",
 }
@@ -1455,6 +1508,13 @@ def bfs(prop, tier, depth, wall_cap=None):
             agg["evaluations"] += r["evals"]
             agg["violations"].extend(r["violations"])
         agg["directory_becomes_file_cases"] = 2
+        for r in common.pmap(empty_file_task, [None, "", "one line\n"]):
+            if "engine_error" in r:
+                raise common.EngineError(r["engine_error"])
+            agg["evaluations"] += r["evals"]
+            agg["distinct_nontrivial"] += r["nontrivial"]
+            agg["violations"].extend(r["violations"])
+        agg["empty_file_cases"] = 27
     if prop == "C02":
         for r in common.pmap(ignored_paths_task, ["worktree", "committed", "worktree/no-targets", "committed/no-targets", "worktree/targets-omitted", "committed/targets-omitted", "worktree/global-excludes", "committed/global-excludes"]):
             if "engine_error" in r:
@@ -1618,9 +1678,9 @@ def replay(prop, path):
             return 1
         print("REPLAY property=%s: case passes on the current tree" % prop)
         return 0
-    if "unborn_case" in body["case"] or "ign_case" in body["case"] or "osib_case" in body["case"] or "d2f_case" in body["case"]:
+    if "unborn_case" in body["case"] or "ign_case" in body["case"] or "osib_case" in body["case"] or "d2f_case" in body["case"] or "emp_case" in body["case"]:
         cs = body["case"]
-        r1 = unborn_task(cs["unborn_case"]) if "unborn_case" in cs else ignored_paths_task(cs["ign_case"]) if "ign_case" in cs else outdir_sibling_task(cs["osib_case"]) if "osib_case" in cs else dir_becomes_file_task(cs["d2f_case"])
+        r1 = empty_file_task({"absent": None, "empty": "", "one-line": "one line\n"}[cs["emp_case"]]) if "emp_case" in cs else unborn_task(cs["unborn_case"]) if "unborn_case" in cs else ignored_paths_task(cs["ign_case"]) if "ign_case" in cs else outdir_sibling_task(cs["osib_case"]) if "osib_case" in cs else dir_becomes_file_task(cs["d2f_case"])
         if "engine_error" in r1:
             print("ENGINE:", r1["engine_error"])
             return 2
